@@ -39,9 +39,11 @@ type SSTableInfo struct {
 
 // Overlaps checks if this SSTable's key range overlaps with another SSTable
 func (s *SSTableInfo) Overlaps(other *SSTableInfo) bool {
-	// If either SSTable has no keys, they don't overlap
-	if len(s.FirstKey) == 0 || len(s.LastKey) == 0 ||
-		len(other.FirstKey) == 0 || len(other.LastKey) == 0 {
+	// If either SSTable has no keys, they don't overlap. "No keys" is a nil bound:
+	// the empty key is a key like any other (and the smallest one), so a table that
+	// starts with it has an empty, non-nil FirstKey
+	if s.FirstKey == nil || s.LastKey == nil ||
+		other.FirstKey == nil || other.LastKey == nil {
 		return false
 	}
 
